@@ -6,7 +6,7 @@ from sx.seclist_inst import OPS
 
 def tasks(tier):
     T = []
-    ns = (1, 2, 3, 4) if tier == 'quick' else (1, 2, 3, 4, 5, 6, 8)
+    ns = (1, 2, 3, 4) if tier == 'quick' else (1, 2, 3, 4, 5, 6)
     for n in ns:
         for op in OPS:
             if op in ('sort', 'sort_rev') and n > 3: continue
